@@ -46,22 +46,32 @@ __CPROVER_assigns(*out);
 #endif
 
 #ifdef EL_BUILD_GHOST
+/* [ASSUMED in the job that enforces convertToNested] KSI_TlvElement_free releases the object it is given and nothing
+ * else; modelled as recording its argument (dfcc cannot free, after a loop contract, an object that was allocated inside
+ * the loop - same as KSI_TLV_free in contracts/tlv_parse.h) */
+KSI_TlvElement *g_elfree_arg; size_t g_elfree_calls;
+void KSI_TlvElement_free(KSI_TlvElement *t)
+__CPROVER_ensures(g_elfree_arg == t && g_elfree_calls == __CPROVER_old(g_elfree_calls) + 1)
+__CPROVER_assigns(g_elfree_arg, g_elfree_calls);
 /* lazy expansion of an element's payload into children, against the ghost list (B) of env/ghost_tlvelem.h: the list stub
  * checks for EVERY child, when it is appended, that it starts where its predecessor ended and stays inside the payload.
  * Success requires exact cover.  Failure must leave the element unexpanded and release what was built
- * (DESIGN 7-f expects the release to be missing). */
+ * (DESIGN 7-f, fixed by 9b9802b). */
 static int convertToNested(KSI_TlvElement *el)
 __CPROVER_requires(el != NULL && (el->subList == NULL || el->subList == &g_el_list))
 __CPROVER_requires((el->ftlv.hdr_len == 2 || el->ftlv.hdr_len == 4) && el->ftlv.dat_len <= EL_MAX_INPUT)
 __CPROVER_requires(el->ptr + el->ftlv.hdr_len == g_eb_base && el->ftlv.dat_len == g_eb_len && __CPROVER_r_ok(el->ptr, el->ftlv.hdr_len + el->ftlv.dat_len))
-__CPROVER_requires(!g_eb_live && !g_eb_freed && g_eb_off == 0 && g_eb_count == 0 && g_eb_rejected == NULL)
+__CPROVER_requires(!g_eb_live && !g_eb_freed && g_eb_off == 0 && g_eb_count == 0 && g_eb_rejected == NULL && g_elfree_calls == 0)
 __CPROVER_ensures(__CPROVER_return_value == KSI_OK || __CPROVER_return_value == KSI_INVALID_FORMAT || __CPROVER_return_value == KSI_OUT_OF_MEMORY)
 __CPROVER_ensures(IMPLIES(__CPROVER_old(el->subList) != NULL, __CPROVER_return_value == KSI_OK && el->subList == __CPROVER_old(el->subList) && !g_eb_live))
 __CPROVER_ensures(IMPLIES(__CPROVER_return_value == KSI_OK && __CPROVER_old(el->subList) == NULL,
 		el->subList == &g_eb_list && g_eb_live && !g_eb_freed && g_eb_off == el->ftlv.dat_len))
 __CPROVER_ensures(IMPLIES(__CPROVER_return_value != KSI_OK, el->subList == NULL))
-/* no leak on the error paths: the list built so far is released */
+/* no leak on the error paths: the list built so far is released (with the children it owns), and the one child the
+ * list refused - still owned by convertToNested - is released, too; nothing else is (ownership: the cleanup block may
+ * release exactly what this call allocated and still owns) */
 __CPROVER_ensures(IMPLIES(__CPROVER_return_value != KSI_OK && g_eb_live, g_eb_freed))
-__CPROVER_assigns(el->subList, g_eb_list, g_eb_live, g_eb_freed, g_eb_count, g_eb_off, g_eb_rejected);
+__CPROVER_ensures(g_elfree_calls == 1 && g_elfree_arg == g_eb_rejected)
+__CPROVER_assigns(g_elfree_arg, g_elfree_calls, el->subList, g_eb_list, g_eb_live, g_eb_freed, g_eb_count, g_eb_off, g_eb_rejected);
 #endif
 #endif
